@@ -715,6 +715,30 @@ FIXED = [
 ]
 
 
+# operations that reach the rarer linking primitives of the engine (DoSplitOp / FixSelfIntersects, horizontal joins, JoinOutrecPaths,
+# split owners in a PolyTree, open paths): the allocation-failure stage fails EVERY allocation of these in both tiers
+NF_SEEDS = [
+    'OFF 1.0 0.25 1 1 2 10.0 1 1 3 1 5 -20 40 40 40 20 199 -40 40 200 40',
+    'B64 2 1 0 0 0 0 1 4 0 0 100 100 100 0 0 100 0 0',                                              # bow-tie union
+    'B64 2 1 0 0 1 0 1 5 0 -100 59 81 -95 -31 95 -31 -59 81 0 0',                                   # pentagram into a tree
+    'B64 2 0 0 0 3 0 1 5 0 -100 59 81 -95 -31 95 -31 -59 81 1 2 -120 0 120 0 0',                    # + open path, EvenOdd, tree
+    'B64 2 1 1 0 0 0 2 4 0 0 50 0 50 50 0 50 4 50 0 100 0 100 50 50 50 0 0',                        # abutting squares (horizontal joins)
+    'B64 4 0 0 0 1 0 2 4 0 0 100 0 100 100 0 100 4 20 20 80 20 80 80 20 80 0 1 4 40 40 60 40 60 60 40 60',   # nested, Xor, tree
+    'B64 1 1 0 0 2 0 1 4 0 0 100 0 100 100 0 100 1 3 -10 50 50 40 110 50 1 4 50 -10 150 -10 150 110 50 110', # open subject clipped
+    'B64 3 1 0 1 1 0 2 6 0 0 40 0 40 40 80 40 80 80 0 80 4 10 10 30 10 30 30 10 30 0 1 4 20 -10 60 -10 60 60 20 60',
+    'BSEQ 2 0 1 0 1 2 2 1 3 20 -20 30 -20 20 -10 0 6 3 20 -20 30 -20 20 -10 3 20 -20 30 -20 20 -10 3 20 -20 30 -20 20 -10 3 20 -20 30 -20 20 -10 '
+    '3 20 -20 30 -20 20 -10 3 20 -20 30 -20 20 -10',
+    'INF64 -5 2 0 2 0 1 8 0 0 100 0 100 100 60 100 60 40 40 40 40 100 0 100',                        # shrinking a U: the result splits
+    'MK64 1 1 4 -3 -3 3 -3 3 3 -3 3 5 0 0 50 0 50 50 25 20 0 50',
+    'RC64 10 10 60 60 0 1 7 0 0 100 0 100 100 50 100 50 30 30 30 0 100',
+    'XBT64 2 1 0 0 0 0 2 4 0 0 100 0 100 100 0 100 4 20 20 20 80 80 80 80 20 0 0',
+]
+
+
+def nf_seed_cases():
+    return [case(l, 'small', True, 'nf-seed') for l in NF_SEEDS]
+
+
 def fixed_cases():
     return [case(l, r, le, f) for (l, r, le, f) in FIXED]
 
